@@ -236,7 +236,37 @@ def producers():
         ("add_blackbox+fill", _fill),
         ("strip_blackboxes", _strip_bb),
         ("tx.insert_registers", lambda c: tx.insert_registers(c, 1)),
+        ("tx.supergates", lambda c: tx.supergates(c)),
+        ("tx.supergates(super)", lambda c: tx.supergates(_single_output(c), construct_supercircuit=True)[0]),
+        ("tx.sequential_unroll", lambda c: tx.sequential_unroll(_with_flop(c), 2, "d", "q")[0]),
+        ("tx.sequential_unroll(opts)", lambda c: tx.sequential_unroll(_with_flop(c), 2, "d", "q", ignore_pins="clk", add_flop_outputs=True,
+                                                               initial_values="0", remove_unloaded=False)[0]),
+        ("tx.unroll(state)", lambda c: tx.unroll(c, 3, {sorted(c.outputs())[0]: sorted(c.inputs())[0]})[0]),
+        ("tx.limit_fanin(limit_fanout)", lambda c: tx.limit_fanin(tx.limit_fanout(c, 2), 2)),
     ]
+
+
+def _single_output(c):
+    r = c.copy()
+    outs = sorted(r.outputs())
+    r.set_output(outs[:-1], False)
+    if r.remove_unloaded():
+        pass
+    return r
+
+
+def _with_flop(c):
+    """c with one generic flop: its q feeds nothing new, its d is driven by the first output; clk is a new input."""
+    import circuitgraph as cg
+
+    r = c.copy()
+    if sorted(r.outputs())[0] in r.inputs():
+        raise _Skip()
+    r.add("clk_net", "input")
+    r.add("q_net", "buf")
+    r.add("q_out", "and", fanin=["q_net", sorted(r.inputs())[0]], output=True)
+    r.add_blackbox(cg.generic_flop, "ff0", {"clk": "clk_net", "d": sorted(c.outputs())[0], "q": "q_net"})
+    return r
 
 
 def _compose(c):
@@ -346,7 +376,8 @@ def check_output(acc, pname, fn, desc):
             acc.extra["producer_raises"].append(tag)
         return
     try:
-        cg.lint(r)
+        for one in (r if isinstance(r, (list, tuple)) else [r]):
+            cg.lint(one)
         acc.outcome("clean")
     except ValueError as e:
         acc.violation("outputs", f"not-lint-clean:{pname}", {"kind": "outputs", "producer": pname, "desc": desc}, repr(e))
